@@ -179,17 +179,18 @@ type affLoop struct {
 }
 
 type affExec struct {
-	m       *Model
-	info    *types.Info
-	depth   int
-	loops   *[]*affLoop
-	curLoop *affLoop
-	fnName  string
-	undec   *[]string // shapes the executor could not follow
-	rootPkg string
-	escaped map[types.Object]bool // local variables whose address is taken: never tracked
-	stack   map[*types.Func]bool
-	idx     map[string]affIdx // registry of indexed references: "r.ns[i + -1]" -> (r.ns, i-1)
+	namedResults []types.Object
+	m            *Model
+	info         *types.Info
+	depth        int
+	loops        *[]*affLoop
+	curLoop      *affLoop
+	fnName       string
+	undec        *[]string // shapes the executor could not follow
+	rootPkg      string
+	escaped      map[types.Object]bool // local variables whose address is taken: never tracked
+	stack        map[*types.Func]bool
+	idx          map[string]affIdx // registry of indexed references: "r.ns[i + -1]" -> (r.ns, i-1)
 }
 
 type affIdx struct {
@@ -477,6 +478,7 @@ func (x *affExec) call(c *ast.CallExpr, st *affState) aval {
 					i++
 				}
 			}
+			sub.bindNamedResults(fd, ns)
 			if okBind {
 				outs := sub.block(fd.Body.List, []*affState{ns})
 				var rets []aval
@@ -542,6 +544,31 @@ func (x *affExec) call(c *ast.CallExpr, st *affState) aval {
 	return asym{s}
 }
 
+// bindNamedResults gives the named results of an inlined function their zero values.
+func (x *affExec) bindNamedResults(fd *ast.FuncDecl, ns *affState) {
+	x.namedResults = nil
+	if fd.Type.Results == nil {
+		return
+	}
+	for _, fl := range fd.Type.Results.List {
+		for _, nm := range fl.Names {
+			o := x.info.Defs[nm]
+			if o == nil {
+				continue
+			}
+			x.namedResults = append(x.namedResults, o)
+			if x.escaped[o] {
+				continue
+			}
+			if isNumeric(o.Type()) {
+				ns.env[o] = linConst(0)
+			} else {
+				ns.env[o] = asym{"nil"}
+			}
+		}
+	}
+}
+
 // inlineStmtCall inlines a call used as a statement and forks the caller's state per callee path.
 func (x *affExec) inlineStmtCall(c *ast.CallExpr, st *affState) ([]*affState, bool) {
 	fn, ok := calleeObj(x.info, c).(*types.Func)
@@ -579,6 +606,7 @@ func (x *affExec) inlineStmtCall(c *ast.CallExpr, st *affState) ([]*affState, bo
 			i++
 		}
 	}
+	sub.bindNamedResults(fd, ns)
 	outs := sub.block(fd.Body.List, []*affState{ns})
 	var res []*affState
 	for _, o := range outs {
@@ -804,6 +832,13 @@ func (x *affExec) stmt(s ast.Stmt, st *affState) []*affState {
 			}
 		} else if len(v.Rhs) == 1 {
 			rv := x.eval(v.Rhs[0], st)
+			if sq, ok := rv.(aseq); ok && len(sq.e) == len(v.Lhs) {
+				// a multi-value result that the executor followed (inlined callee)
+				for i, l := range v.Lhs {
+					x.assignTo(l, sq.e[i], st, v.Pos())
+				}
+				return []*affState{st}
+			}
 			for i, l := range v.Lhs {
 				x.assignTo(l, asym{fmt.Sprintf("%s#%d", avalString(rv), i)}, st, v.Pos())
 			}
@@ -836,6 +871,18 @@ func (x *affExec) stmt(s ast.Stmt, st *affState) []*affState {
 		}
 		return []*affState{st}
 	case *ast.ReturnStmt:
+		if len(v.Results) == 0 && len(x.namedResults) > 0 {
+			// naked return: the current values of the named results
+			if len(x.namedResults) == 1 {
+				st.ret = st.env[x.namedResults[0]]
+			} else {
+				var sq aseq
+				for _, o := range x.namedResults {
+					sq.e = append(sq.e, st.env[o])
+				}
+				st.ret = sq
+			}
+		}
 		if len(v.Results) == 1 {
 			st.ret = x.eval(v.Results[0], st)
 		} else if len(v.Results) > 1 {
